@@ -31,6 +31,16 @@ def class_maps():
     return file_cls, dir_cls
 
 
+# attribute names behind the constructor arguments (what code edits when it changes a cap in place)
+FIELD_ATTRS = {
+    "CHK": ("key", "uri_extension_hash", "needed_shares", "total_shares", "size"),
+    "CHKVerifier": ("storage_index", "uri_extension_hash", "needed_shares", "total_shares", "size"),
+    "LIT": ("data",),
+    "SSK": ("writekey", "fingerprint"), "SSKRO": ("readkey", "fingerprint"), "SSKVerifier": ("storage_index", "fingerprint"),
+    "MDMF": ("writekey", "fingerprint"), "MDMFRO": ("readkey", "fingerprint"), "MDMFVerifier": ("storage_index", "fingerprint"),
+}
+
+
 def rbytes(r, n):
     return bytes(r.getrandbits(8) for _ in range(n))
 
